@@ -22,7 +22,7 @@ VARIANTS = [
 ]
 RULE = ("cases = (source kind: DatasetSource / UnionDatasetSource with 1-3 members, LatestOnly per member, batch size 1..5, "
         "history of source batches (re-writes of the same id, deletes, un-deletes, equal-JSON-length pairs), foreign writes to the "
-        "sink dataset, and job runs (incremental / fullsync) each with a scripted fault: sink error / sink commit then death / "
+        "sink dataset, and job runs (incremental / fullsync) each with a scripted fault: sink error / source (ReadEntities) error / sink commit then death / "
         "kill after a page / death at hook pipeline.beforeToken / pipeline.afterToken at page index i); fault positions are "
         "enumerated over every page index of fixed histories plus PRNG histories; a case is non-trivial when some fault fired or a "
         "run needed >= 2 pages; distinct = distinct case tuples")
@@ -45,9 +45,9 @@ ASSUMPTIONS = [
 ]
 EXHAUSTIVE = {"thorough": False}
 
-FAULTS = ["sinkfail", "sinkpanic", "kill", "diebefore", "dieafter"]
+FAULTS = ["sinkfail", "sinkpanic", "kill", "diebefore", "dieafter", "srcfail"]
 FAULT_COQ = {"none": "FNone", "sinkfail": "FSinkFail", "sinkpanic": "FSinkPanic", "kill": "FKill",
-             "diebefore": "FDieBefore", "dieafter": "FDieAfter"}
+             "diebefore": "FDieBefore", "dieafter": "FDieAfter", "srcfail": "FSrcFail"}
 OUTCOME = {"ok": 0, "failed": 1, "died": 2}
 
 
@@ -80,6 +80,14 @@ def witness_cases():
         # in-batch repeats (source and sink side): tells the two duplicate rules apart through feed positions / tokens
         mk([W(0, [(2, 13, 0, 1), (1, 2, 0, 0), (1, 2, 0, 0)]), R(), W(0, [(1, 2, 0, 0), (1, 3, 0, 0), (1, 3, 0, 0)]),
             R(False, "kill", 0), R(), R()], batch=2),
+        # a fullsync that fails at batch k (sink error / source error) on a sink that already holds data, then an
+        # incremental run: token must not pass undelivered data, nothing may be deleted, the next run converges
+        mk([W(0, [(1, 1, 0, 0), (2, 1, 0, 0), (3, 1, 0, 0), (4, 1, 0, 0)]), R(), W(0, [(5, 1, 0, 0), (6, 1, 0, 0)]),
+            R(True, "sinkfail", 2), R(), R()], batch=2, los=(True,)),
+        mk([W(0, [(1, 1, 0, 0), (2, 1, 0, 0), (3, 1, 0, 0), (4, 1, 0, 0)]), R(), W(0, [(5, 1, 0, 0)]),
+            R(True, "srcfail", 1), R(), R()], batch=2),
+        mk([W(0, [(1, 1, 0, 0), (2, 1, 0, 0)]), W(1, [(11, 1, 0, 0), (12, 1, 0, 0)]), R(), W(1, [(13, 1, 0, 0)]),
+            R(True, "srcfail", 0), R(), R(True, "sinkfail", 1), R()], batch=1, los=(False, True), union=True),
         # plain behaviour: death between sink write and token store, then recovery and a no-op run
         mk([W(0, [(1, 1, 0, 0), (2, 2, 0, 0), (3, 3, 0, 0)]), R(), W(0, [(1, 4, 0, 0)]), R(False, "diebefore", 0), R(), R()]),
         mk([W(0, [(1, 1, 0, 0), (2, 2, 0, 0), (3, 3, 0, 0)]), W(1, [(11, 1, 0, 0), (12, 2, 0, 0), (11, 3, 0, 0)]),
@@ -211,6 +219,15 @@ def zl(l):
 
 
 def term(c, o):
+    t = _term(c, o)
+    k = _key(c, o)
+    if k not in _TERMS:
+        _TERMS[k] = t
+        _ORDER.append(k)
+    return t
+
+
+def _term(c, o):
     runs = list(o.get("runs") or [])
     ops = []
     ri = 0
@@ -241,42 +258,35 @@ def predict_text(c, o):
     return out.strip()
 
 
-def _shortcut_equal(a, b):
-    """IsEntityEqual of the pinned tree on two catalogue versions (prev, this)"""
-    def vlen(v):
-        return 0 if v == 0 else (v - 1) // 3 + 1
+_TERMS = {}      # (case, obs) key -> position in _ORDER ; filled by term()
+_ORDER = []
+_EXPLAINED = {}  # key -> list of variant indices that predict this observation
 
-    def plen(v):
-        return 0 if v == 0 else 10 + vlen(v)
 
-    def jlen(x):
-        return (15 if x[3] else 0) + plen(x[1]) + plen(x[2]) + (0 if (x[1] == 0 or x[2] == 0) else 1)
-    return jlen(a) == jlen(b) and (a[1] == 0 or a[1] == b[1]) and (a[2] == 0 or a[2] == b[2])
+def _key(c, o):
+    import json
+    return json.dumps(c, sort_keys=True) + "|" + json.dumps(o, sort_keys=True)
 
 
 def attribute(c, o):
-    """signature of the recorded findings"""
-    runs = list(o.get("runs") or [])
-    ri = 0
-    failed_full = False
-    for op in c["ops"]:
-        if op["op"] == "run":
-            r = runs[ri] if ri < len(runs) else None
-            ri += 1
-            if op.get("full") and r is not None and r.get("outcome") in ("failed", "died"):
-                failed_full = True
-    # F08a: some source feed contains two versions of one id that differ but are equal for the shortcut
-    eqlen = False
-    for f in o.get("srcs") or []:
-        for i, a in enumerate(f):
-            for b in f[i + 1:]:
-                if a[0] == b[0] and tuple(a) != tuple(b) and _shortcut_equal(a, b):
-                    eqlen = True
-    if eqlen:
-        return "F08a"
-    if failed_full:
-        return "F08b"
-    return None
+    """A spec failure of the implementation is explained by a finding only if some variant of the model predicts
+    exactly this observation; the finding is then (the first of) those of the least deviating such variant.
+    Evaluated in Coq, once for all cases seen by term()."""
+    k = _key(c, o)
+    if k not in _EXPLAINED:
+        todo = [kk for kk in _ORDER if kk not in _EXPLAINED]
+        if k not in _TERMS:
+            _TERMS[k] = _term(c, o)
+            todo.append(k)
+        ev = vlib.coq_evaluate_cases("C08a", CHECK_MODULE, CASE_TYPE, [_TERMS[kk] for kk in todo], shard=SHARD)
+        for i, kk in enumerate(todo):
+            _EXPLAINED[kk] = [vi for vi in range(len(VARIANTS)) if i not in ev[vi]]
+    agreeing = _EXPLAINED[k]
+    if not agreeing:
+        return None
+    best = min(agreeing, key=lambda vi: len(VARIANTS[vi]["findings"]))
+    fs = VARIANTS[best]["findings"]
+    return fs[0] if fs else None
 
 
 def size(c):
